@@ -556,28 +556,37 @@ local macro "kdor_leafs" : tactic => `(tactic| (
   · cases h))
 
 set_option hygiene false in
-local macro "kdor_rest" : tactic => `(tactic| (
-  obtain ⟨h2, h⟩ := ite_err_ok h
+local macro "kdor_guards" : tactic => `(tactic| repeat (is_guard_hyp; obtain ⟨_, h⟩ := ite_err_ok h))
+
+set_option hygiene false in
+local macro "kdor_if" : tactic => `(tactic| (
+  rcases ite_ok_inv h with ⟨hc, h⟩ | ⟨hc, h⟩ <;>
+    first | (cases hc; done) | (exact absurd rfl hc) | (exact absurd trivial hc) | skip))
+
+set_option hygiene false in
+local macro "kdor_kind" : tactic => `(tactic| (
   generalize hk : fileKind _ = ok at h
   cases ok with
   | none => cases h
   | some k =>
-    obtain ⟨_, h⟩ := ite_err_ok h
+    kdor_if
+    kdor_guards
     cases k with
-    | packed => cases h
+    | packed => first | cases h | (dsimp only at h; cases h)
     | wide n =>
-      obtain ⟨_, h⟩ := ite_err_ok h
+      try dsimp only at h
+      kdor_guards
       kdor_leafs
     | recd fs pr =>
-      obtain ⟨_, h⟩ := ite_err_ok h
-      obtain ⟨_, h⟩ := ite_err_ok h
+      try dsimp only at h
+      kdor_guards
       try dsimp only at h
       kdor_leafs
     | plain dt0 =>
+      try dsimp only at h
       obtain ⟨_, h⟩ | ⟨_, h⟩ := ite_ok_inv h
       · kdor_leafs
-      · obtain ⟨_, h⟩ := ite_err_ok h
-        obtain ⟨_, h⟩ := ite_err_ok h
+      · kdor_guards
         try dsimp only at h
         kdor_leafs))
 
@@ -594,27 +603,21 @@ theorem KindOk.apiDegradeOnRead {f : FileObj} {ordOut : Nat} {red : String}
     cases wf with
     | none =>
       dsimp only at h
-      obtain ⟨h1, h⟩ := ite_err_ok h
-      obtain ⟨_, h⟩ := ite_err_ok h
-      obtain ⟨hc, h⟩ | ⟨_, h⟩ := ite_ok_inv h
-      · cases hc
-      · kdor_rest
+      kdor_guards
+      kdor_if
+      kdor_guards
+      kdor_kind
     | some w =>
       dsimp only at h
       obtain ⟨_, h⟩ | ⟨_, h⟩ := ite_ok_inv h
-      · obtain ⟨_, h⟩ := ite_err_ok h
-        obtain ⟨_, h⟩ := ite_err_ok h
-        obtain ⟨h1, h⟩ := ite_err_ok h
-        obtain ⟨_, h⟩ := ite_err_ok h
-        obtain ⟨_, h⟩ | ⟨hc, h⟩ := ite_ok_inv h
-        · obtain ⟨_, h⟩ := ite_err_ok h
-          kdor_rest
-        · exact absurd trivial hc
-      · obtain ⟨h1, h⟩ := ite_err_ok h
-        obtain ⟨_, h⟩ := ite_err_ok h
-        obtain ⟨hc, h⟩ | ⟨_, h⟩ := ite_ok_inv h
-        · cases hc
-        · kdor_rest
+      · kdor_guards
+        kdor_if
+        kdor_guards
+        kdor_kind
+      · kdor_guards
+        kdor_if
+        kdor_guards
+        kdor_kind
 
 theorem Ok.apiDegradeOnRead {f : FileObj} {ordOut : Nat} {red : String}
     {pixels : Option (List Nat)} {wf : Option FileObj} {m : MapObj} (hf : f.KindOk)
